@@ -196,7 +196,11 @@ func main() {
 		case "C11":
 			fmt.Println(c11.EnumSize())
 		case "C18":
-			fmt.Println(c18.EnumSize())
+			if *scenario == "stopenum" {
+				fmt.Println(c18.StopEnumSize())
+			} else {
+				fmt.Println(c18.EnumSize())
+			}
 		default:
 			fmt.Println(0)
 		}
@@ -306,6 +310,7 @@ func main() {
 		sum.Counters["context_switches"] += res.Stats.Switches
 		sum.Counters["events_fired"] += res.Stats.Events
 		sum.Counters["time_skips"] += res.Stats.TimeSkips
+		sum.Counters["stalls_after_send"] += res.Stats.Stalls
 		sum.Counters["clock_jumps"] += res.Stats.ClockJumps
 		sum.Counters["tasks"] += res.Stats.Tasks
 		for k, v := range res.Extra {
